@@ -89,13 +89,13 @@ def both(text, with_comments=False):
 
 def uncertain(res, err=None):
     """inputs on which the reference model itself is not authoritative
-    (Annex B forms, escaped identifiers, exotic regex flags, inputs the
+    (Annex B forms, escaped spellings of reserved words, exotic regex flags, inputs the
     specification can be read either way on)"""
     if err is not None and getattr(err, 'uncertain', False):
         return True
     if res is None:
         return False
-    return bool(res.flags & {'annexb_octal', 'annexb_octal_escape', 'escaped', 'escaped_identifier',
+    return bool(res.flags & {'annexb_octal', 'annexb_octal_escape', 'escaped_identifier',
                              'escaped_flags', 'exotic_flags'})
 
 
